@@ -629,6 +629,19 @@ crate::serialize_deserialize_primefield!(Fp);
 crate::impl_from_u64!(Fp);
 crate::impl_from_bool!(Fp);
 
+#[cfg(feature = "verif-hooks")]
+impl Fp {
+    /// verif hook: the crate-private `montgomery_reduce` on eight arbitrary limbs.
+    pub fn verif_montgomery_reduce(r: &[u64; 8]) -> Fp {
+        Fp::montgomery_reduce(r)
+    }
+
+    /// verif hook: the crate-private `from_mont` (canonical limbs of this element).
+    pub fn verif_from_mont(&self) -> [u64; 4] {
+        self.from_mont()
+    }
+}
+
 #[cfg(test)]
 mod test {
     use super::*;
